@@ -381,6 +381,57 @@ impl<'a> Gen<'a> {
         b.def(Some(reg(p.sp, p.ptr)), expr("INT_ADD", &[reg(p.sp, p.ptr), cst(p.ptr, p.ptr)]));
     }
 
+    /// `cmp lhs, rhs` (or `test lhs, lhs`) followed by the condition of a conditional jump, the way
+    /// flag architectures express comparisons: the flags are set from the operands, the branch
+    /// condition is a boolean combination of flags (`jle`: ZF || OF != SF, `ja`: !CF && !ZF, ...).
+    /// Returns the varnode holding the condition. `kind` selects the relation (0..10).
+    fn cmp_and_cond(&mut self, b: &mut Blk, lhs: &str, rhs: Value, kind: u64) -> Value {
+        let p = self.p;
+        debug_assert!(p.flags.len() >= 4);
+        let (zf, cf, sf, of) = (reg(p.flags[0], 1), reg(p.flags[1], 1), reg(p.flags[2], 1), reg(p.flags[3], 1));
+        b.next_insn();
+        if kind == 10 {
+            // test lhs, lhs
+            b.def(Some(cf.clone()), expr("COPY", &[cst(0, 1)]));
+            b.def(Some(of.clone()), expr("COPY", &[cst(0, 1)]));
+            let t = self.u(p.ptr);
+            b.def(Some(t.clone()), expr("INT_AND", &[reg(lhs, p.ptr), reg(lhs, p.ptr)]));
+            b.def(Some(sf.clone()), expr("INT_SLESS", &[t.clone(), cst(0, p.ptr)]));
+            b.def(Some(zf.clone()), expr("INT_EQUAL", &[t, cst(0, p.ptr)]));
+        } else {
+            b.def(Some(cf.clone()), expr("INT_LESS", &[reg(lhs, p.ptr), rhs.clone()]));
+            b.def(Some(of.clone()), expr("INT_SBORROW", &[reg(lhs, p.ptr), rhs.clone()]));
+            let t = self.u(p.ptr);
+            b.def(Some(t.clone()), expr("INT_SUB", &[reg(lhs, p.ptr), rhs]));
+            b.def(Some(sf.clone()), expr("INT_SLESS", &[t.clone(), cst(0, p.ptr)]));
+            b.def(Some(zf.clone()), expr("INT_EQUAL", &[t, cst(0, p.ptr)]));
+        }
+        b.next_insn();
+        match kind {
+            0 | 10 => zf,                                   // je / jz
+            1 => { let c = self.u(1); b.def(Some(c.clone()), expr("BOOL_NEGATE", &[zf])); c }          // jne
+            2 => { let c = self.u(1); b.def(Some(c.clone()), expr("INT_NOTEQUAL", &[of, sf])); c }      // jl
+            3 => { let c = self.u(1); b.def(Some(c.clone()), expr("INT_EQUAL", &[of, sf])); c }         // jge
+            4 => {                                                                                       // jle
+                let t1 = self.u(1); b.def(Some(t1.clone()), expr("INT_NOTEQUAL", &[of, sf]));
+                let c = self.u(1); b.def(Some(c.clone()), expr("BOOL_OR", &[zf, t1])); c
+            }
+            5 => {                                                                                       // jg
+                let t1 = self.u(1); b.def(Some(t1.clone()), expr("INT_EQUAL", &[of, sf]));
+                let t2 = self.u(1); b.def(Some(t2.clone()), expr("BOOL_NEGATE", &[zf]));
+                let c = self.u(1); b.def(Some(c.clone()), expr("BOOL_AND", &[t2, t1])); c
+            }
+            6 => cf,                                                                                     // jb
+            7 => { let c = self.u(1); b.def(Some(c.clone()), expr("BOOL_NEGATE", &[cf])); c }          // jae
+            8 => { let c = self.u(1); b.def(Some(c.clone()), expr("BOOL_OR", &[cf, zf])); c }           // jbe
+            _ => {                                                                                       // ja
+                let t1 = self.u(1); b.def(Some(t1.clone()), expr("BOOL_NEGATE", &[cf]));
+                let t2 = self.u(1); b.def(Some(t2.clone()), expr("BOOL_NEGATE", &[zf]));
+                let c = self.u(1); b.def(Some(c.clone()), expr("BOOL_AND", &[t1, t2])); c
+            }
+        }
+    }
+
     /// One random machine instruction.
     fn random_insn(&mut self, b: &mut Blk) {
         let p = self.p;
@@ -1173,7 +1224,13 @@ impl<'a> Gen<'a> {
                     4 => expr("INT_SLESS", &[reg(idx, p.ptr), cst(0, p.ptr)]),            // count-down, while (i >= 0)
                     _ => expr("INT_EQUAL", &[reg(idx, p.ptr), cst(bound, p.ptr)]),        // while (i != bound)
                 };
-                hb.def(Some(cond.clone()), e);
+                let cond = if p.flags.len() >= 4 && matches!(kind, 2 | 3 | 5) && self.r.chance(50) {
+                    // the same guard as cmp + jae / jge / je
+                    self.cmp_and_cond(&mut hb, idx, cst(bound, p.ptr), match kind { 2 => 7, 3 => 3, _ => 0 })
+                } else {
+                    hb.def(Some(cond.clone()), e);
+                    cond
+                };
                 let j0 = hb.jmp_tid();
                 let j1 = hb.jmp_tid();
                 hb.jmps.push(json!({"tid": j0, "term": {"mnemonic": "CBRANCH", "goto": {"Direct": tid(format!("blk_{}", hex(exit)), &hex(exit))}, "condition": cond}}));
@@ -1459,6 +1516,12 @@ impl<'a> Gen<'a> {
                         let r1 = self.any_gpr();
                         b.def(Some(c.clone()), expr(*self.r.pick(&["INT_EQUAL", "INT_NOTEQUAL", "INT_SLESS"]), &[reg(r1, p.ptr), cst(0, p.ptr)]));
                         c
+                    } else if p.flags.len() >= 4 && self.r.chance(45) {
+                        // cmp/test + jcc
+                        let lhs = self.any_gpr();
+                        let rhs = if self.r.chance(55) { cst(*self.r.pick(&[0u64, 1, 7, 0x10, 0x40, 0xff, 0x7fffffff, u64::MAX]), p.ptr) } else { reg(self.any_gpr(), p.ptr) };
+                        let kind = self.r.below(11);
+                        self.cmp_and_cond(&mut b, lhs, rhs, kind)
                     } else if self.r.chance(30) {
                         let c = self.u(1);
                         b.def(Some(c.clone()), expr("BOOL_NEGATE", &[reg(p.flags[0], 1)]));
